@@ -149,6 +149,9 @@ pub fn profile(prop: &str) -> Profile {
             p.w[W_DROPARENA] = 8;
             p.w[W_DETACH] = 14;
             p.w[W_SETMIN] = 2;
+            // the backing store must also outlive calls that replace or fail to replace it
+            p.w[W_TRUNC] = 3;
+            p.w[W_REOPEN] = 3;
         }
         "C16" => {
             p.prop = "C16";
